@@ -2021,7 +2021,13 @@ class FileBuilder:
                 logger.info(
                     'Moved cache file {:s} to a temporary directory'.format(
                         cache_filename))
-            self._new_cache.write(cache_filename)
+            try:
+                self._new_cache.write(cache_filename)
+            except Exception:
+                # Don't leave behind a partially written cache file. (If there
+                # was a cache file before, _roll_back restores it.)
+                FileBuilder._try_to_remove_file(cache_filename)
+                raise
             logger.info('Wrote cache file {:s}'.format(cache_filename))
         except Exception:
             self._is_finished_build = True
